@@ -1,4 +1,5 @@
 import LopdfModel.Lemmas.Edit
+import LopdfModel.Lemmas.EditLen
 /-
   C11 — property theorems (editing operations keep the document sound).
   * `WF`, `wf_step`, `wf_run`: allocation invariant (max_id >= every object number) and BTreeMap
@@ -79,6 +80,8 @@ theorem wf_step (d : Doc) (op : Op) (h : WF d) (d' : Doc) (out : Out)
     have := wf_addGraphicsState d p n x h; rw [e] at this; exact this
   | changeStream sid c f => simp only [step] at hs; cases hs; exact wf_changeContentStream _ d sid c h
   | changePage p c f => simp only [step] at hs; exact wf_changePageContent _ d p c h d' out hs
+  | compress f => simp only [step] at hs; cases hs; exact wf_of_keys_eq d _ h (docCompress_keys _ _ _)
+  | decompress e => simp only [step] at hs; cases hs; exact wf_of_keys_eq d _ h (docDecompress_keys _ _)
 
 /-- **C11, invariant over arbitrary programs.** For every finite list of modelled editing calls (any
 operations, any arguments, any length) that runs to completion, well-formedness — in particular
@@ -380,3 +383,102 @@ example : Dict.get (Dict.remove (Dict.remove [(kFilter, .name [65]), (LENGTHE, .
   decide
 
 end Lopdf
+
+namespace Lopdf.Ed
+open Lopdf
+
+/-! ### stream `Length` consistency; `compress` / `decompress` frame -/
+
+/-- the stream objects a caller hands to `add_object` / `set_object` must themselves be consistent -/
+def opLenGuard : Op → Prop
+  | .add o => LenOK o
+  | .set _ o => LenOK o
+  | _ => True
+
+/-- **C11, stream `Length` consistency, one step**: every modelled call keeps "each stream's `Length` is the
+length of its stored content" — the calls that set content (add_page_contents, change_content_stream,
+change_page_content, compress, decompress) establish it for the streams they write. -/
+theorem len_step (d : Doc) (op : Op) (h : LenInv d) (hg : opLenGuard op) (d' : Doc) (out : Out)
+    (hs : step d op = .ok (d', out)) : LenInv d' := by
+  cases op with
+  | newId => simp only [step] at hs; split at hs <;> cases hs; exact h
+  | add o => simp only [step] at hs; split at hs <;> cases hs; exact lenInv_addObject d o h hg
+  | set id o => simp only [step] at hs; cases hs; exact valsOK_insert _ _ _ h hg
+  | del id => simp only [step] at hs; cases hs; exact lenInv_deleteObject d id h
+  | prune =>
+    simp only [step] at hs; cases hs
+    exact valsOK_foldl_remove _ _ (lenInv_traverse _ tame_id _ _ h)
+  | delZero => simp only [step] at hs; cases hs; exact lenInv_foldl_delete _ d h
+  | renumber s =>
+    simp only [step] at hs
+    split at hs
+    · rename_i d2 hr; cases hs; exact lenInv_densePass (pagePass d) s (lenInv_pagePass d h) _ hr
+    · cases hs
+    · cases hs
+  | delPages n =>
+    simp only [step] at hs
+    split at hs
+    · rename_i d2 hr; cases hs; exact lenInv_deletePages d n h _ hr
+    · cases hs
+  | addContent p c => simp only [step] at hs; exact lenInv_addPageContents d p c h d' out hs
+  | removeAnnot id =>
+    simp only [step] at hs; have e := Outcome.ok.inj hs
+    have := lenInv_removeAnnot id (pageIter d.trailer d.objects) d h; rw [e] at this; exact this
+  | addXObject p n x =>
+    simp only [step] at hs; have e := Outcome.ok.inj hs
+    have := lenInv_addXObject d p n x h; rw [e] at this; exact this
+  | addGState p n x =>
+    simp only [step] at hs; have e := Outcome.ok.inj hs
+    have := lenInv_addGraphicsState d p n x h; rw [e] at this; exact this
+  | changeStream sid c f => simp only [step] at hs; cases hs; exact lenInv_changeContentStream _ d sid c h
+  | changePage p c f => simp only [step] at hs; exact lenInv_changePageContent _ d p c h d' out hs
+  | compress f =>
+    simp only [step] at hs; cases hs
+    intro k o hk
+    simp only at hk; rw [docCompress_get] at hk
+    cases hos : d.objects.get k with
+    | none => rw [hos] at hk; cases hk
+    | some o0 => rw [hos] at hk; simp at hk; subst hk; exact lenOK_compressObj _ _ _ _ (h k o0 hos)
+  | decompress e =>
+    simp only [step] at hs; cases hs
+    intro k o hk
+    simp only at hk; rw [docDecompress_get] at hk
+    cases hos : d.objects.get k with
+    | none => rw [hos] at hk; cases hk
+    | some o0 => rw [hos] at hk; simp at hk; subst hk; exact lenOK_decompressObj _ _ (h k o0 hos)
+
+/-- guarded programs: every `add_object` / `set_object` argument is `Length`-consistent -/
+def lenGuards : List Op → Prop
+  | [] => True
+  | op :: rest => opLenGuard op ∧ lenGuards rest
+
+/-- **C11, `Length` consistency over arbitrary programs** -/
+theorem len_run (ops : List Op) (d : Doc) (h : LenInv d) (hg : lenGuards ops) (d' : Doc)
+    (hr : runOps d ops = .ok d') : LenInv d' := by
+  induction ops generalizing d with
+  | nil => simp [runOps] at hr; subst hr; exact h
+  | cons op rest ih =>
+    simp only [runOps] at hr
+    split at hr
+    · rename_i d1 out hs; exact ih d1 (len_step d op h hg.1 d1 out hs) hg.2 hr
+    · cases hr
+    · cases hr
+
+example : LenOK (.stream [(LENGTHE, .int 3)] [1, 2, 3]) := by simp [LenOK, Dict.get]
+
+/-- **frame of `Document::compress` / `Document::decompress`**: trailer, `max_id` and the key set are
+untouched; every object that is not a stream is returned as it was; a stream is replaced by its
+(de)compressed form as C09's `compress` / `decompress` describe it. -/
+theorem compress_frame (d : Doc) (f : Bytes → Bytes) (d' : Doc) (out : Out) (hs : step d (.compress f) = .ok (d', out)) :
+    d'.trailer = d.trailer ∧ d'.maxId = d.maxId ∧ d'.objects.keys = d.objects.keys ∧
+    ∀ k, d'.objects.get k = (d.objects.get k).map (compressObj f (fun _ => true) k) := by
+  simp only [step] at hs; cases hs
+  exact ⟨rfl, rfl, by simpa using docCompress_keys f (fun _ => true) d.objects, fun k => by simpa using docCompress_get f (fun _ => true) d.objects k⟩
+
+theorem decompress_frame (d : Doc) (e : Ext) (d' : Doc) (out : Out) (hs : step d (.decompress e) = .ok (d', out)) :
+    d'.trailer = d.trailer ∧ d'.maxId = d.maxId ∧ d'.objects.keys = d.objects.keys ∧
+    ∀ k, d'.objects.get k = (d.objects.get k).map (decompressObj e) := by
+  simp only [step] at hs; cases hs
+  exact ⟨rfl, rfl, by simpa using docDecompress_keys e d.objects, fun k => by simpa using docDecompress_get e d.objects k⟩
+
+end Lopdf.Ed
